@@ -149,3 +149,17 @@ def client_spec(pid, judge):
 SPECS["C08"] = client_spec("C08", "judge_c08")
 SPECS["C16"] = client_spec("C16", "judge_c16")
 SPECS["C17"] = client_spec("C17", "judge_c17")
+
+
+def explore_c18(spec, res, a):
+    return V.standard_explore(spec, res, a, [("h_netlink", ["-seed", str(res.seed), "-n", "10" if a.tier == "quick" else "600"])])
+
+
+SPECS["C18"] = dict(targets=["Properties/C18.vo"], judge_targets=["Check/ChkC18.vo"],
+                    imports="Require Import Bytes Mach Netlink ChkC18.", case_type="ncase", judge="judge_c18", shard=60, explore=explore_c18,
+                    rule="serialize for every payload length 0..64 and sampled lengths up to 8970 with random type/flags/seq/pid; the audit message parser on every buffer length 0..80; "
+                         "NetlinkClient.Send over a live NETLINK_ROUTE socket (the kernel quotes each rejected request verbatim: header and payload compared with the returned sequence number and the socket's port id); "
+                         "Receive of datagrams of every length 0..64 unicast from a second user-space NETLINK_USERSOCK socket (must be an error, never data), Receive of kernel replies; 8 goroutines x 200 concurrent Sends. "
+                         "Live-socket parts are skipped (and recorded) when the sandbox has no netlink. non-trivial = non-empty payload / buffer of at least a header; distinct by case term",
+                    assumptions=["the kernel stamps its own datagrams with port 0 and user-space ones with the sender's port (runtime fact, observed on live sockets)",
+                                 "atomic.AddUint32 is an atomic step"])
